@@ -13,7 +13,7 @@ ASSUMPTIONS = ['engines other than SQLite are not executed: their lexical rules 
 SYMS = ["'", '"', '\\', '\n', '\t', '%', '{', '}', '$', '#', '/*', '*/', '--', ';', 'é', 'a', '|']
 WORDS = ['%s', '{0}', '${f}', "''", "\\'", '%(x)s', '{}', '\\n', ' ', "';--", '";', "\\\\'"]
 FLAG_F = 'Vf'
-POSITIONS = ['fact', 'list', 'record', 'concat', 'flag_default', 'user_flag', 'grounded', 'nested', 'body_eq', 'body_in', 'call_arg', 'concat_tight', 'functor_arg', 'in_left']
+POSITIONS = ['fact', 'list', 'record', 'concat', 'flag_default', 'user_flag', 'grounded', 'nested', 'body_eq', 'body_in', 'call_arg', 'concat_tight', 'functor_arg', 'in_left', 'argmax_key', 'sqlexpr_arg']
 
 
 def strings(maxlen):
@@ -22,7 +22,7 @@ def strings(maxlen):
     for t in itertools.product(SYMS, repeat=n): out.append(''.join(t))
   out += WORDS
   out += [a + b for a in WORDS for b in WORDS if a != b and '${f}' not in (a, b)][::3]
-  out += ['a | b', 'a|', '|', "C:\\Users\\O'Brien\\notes.txt", "don't match \\d+\t."]
+  out += ['{v}', '{a}', '{y}', '{z}', "'{y}'", '{y}{z}', '{x}', '{0}{1}', '{arg}', '{value}', 'a | b', 'a|', '|', "C:\\Users\\O'Brien\\notes.txt", "don't match \\d+\t."]
   out += ["it's a \"test\" \\ 100% {ok} {0} %s # -- /* */ ;\n\t \u00e9 \\' end", "x" * 300 + "'" + "y" * 300, "'" * 9, '\\' * 7, "a'b\"c'd\"e\\f\ng\th%i{j}k$l#m/*n*/o--p;q", "'; DROP TABLE t; --", '\\\\\'\\\'']
   out += [w + s for w in ('${f}', '%s') for s in ("'", '"', '\\', 'a')] + [s + '${f}' for s in ("'", '"', '\\')]
   seen = set(); res = []
@@ -65,6 +65,8 @@ def program(dialect, position, items):
     elif position == 'call_arg': lines.append('T(%d, Idf(%s));' % (i, lit))
     elif position == 'concat_tight': lines.append('T(%d, "<"++%s++">");' % (i, lit))
     elif position == 'functor_arg': lines += ['V%d := Val(Base: %s);' % (i, lit), 'T(%d, V%d());' % (i, i)]
+    elif position == 'argmax_key': lines.append('T(%d, s) :- s ArgMax= (%s -> 1);' % (i, lit))
+    elif position == 'sqlexpr_arg': lines.append('T(%d, SqlExpr("{x} || {y} || {z}", {x: %s, y: "", z: ""}));' % (i, lit))
     elif position == 'in_left': lines.append('T(%d, s) :- s == %s, %s in ["q", s];' % (i, lit, lit))
     elif position == 'flag_default':
       lines.append('@DefineFlag("fl%d", %s);' % (i, lit)); lines.append('T(%d, FlagValue("fl%d"));' % (i, i))
